@@ -29,7 +29,7 @@
 From Coq Require Import List ZArith NArith Bool Permutation.
 From Astisub Require Import Kit.Base Kit.Str Kit.Float64 Kit.Float64x Kit.Xml Model.Dur Model.Ttml
   Proofs.DurProofs Proofs.TtmlBase Proofs.TtmlSpec Proofs.TtmlTime Proofs.TtmlFloat Proofs.TtmlTimeAll
-  Proofs.TtmlLines Proofs.TtmlPara Proofs.TtmlRefs Proofs.TtmlDocSpec Proofs.TtmlDoc.
+  Proofs.TtmlLines Proofs.TtmlPara Proofs.TtmlRefs Proofs.TtmlDocSpec Proofs.TtmlDoc Kit.XmlParse Proofs.XmlParseProofs Proofs.TtmlBytes.
 Import ListNotations.
 Open Scope Z_scope.
 
@@ -135,6 +135,19 @@ Theorem C03_write_read : forall d ind, repr_doc d = true -> indent_ok ind = true
   exists t, write_ttml d = Ok t /\ read_ttml (indent_doc ind t) = Ok (written_value d).
 Proof. exact write_read. Qed.
 Print Assumptions C03_write_read.
+
+(* the same through bytes: [xml_parse] (Kit/XmlParse.v) is an executable parser for the XML subset the
+   encoder emits (start/end tags, quoted attributes, the eight escapes, namespace resolution as Go's decoder
+   does it); it inverts the byte-level writer model on every document value and indent option ... *)
+Theorem C03_parse_written : forall d ind b, indent_ok ind = true -> write_ttml_bytes ind d = Ok b ->
+  exists t, write_ttml d = Ok t /\ xml_parse b = Some (indent_doc ind t).
+Proof. exact parse_written. Qed.
+Print Assumptions C03_parse_written.
+(* ... so the bytes the writer model emits parse to a tree the reader model reads as the written value *)
+Theorem C03_write_read_bytes : forall d ind, repr_doc d = true -> indent_ok ind = true ->
+  exists b t, write_ttml_bytes ind d = Ok b /\ xml_parse b = Some t /\ read_ttml t = Ok (written_value d).
+Proof. exact write_read_bytes. Qed.
+Print Assumptions C03_write_read_bytes.
 
 (* ---------------- totality ---------------- *)
 Theorem C03_read_total : forall root s, read_ttml root <> Panic s.
